@@ -3,7 +3,7 @@
    Model: coq/Model/Encap.v (common/encapsulation/encapsulation.go after the fix: commit
    "fix: read encapsulation length prefix bytes with io.ReadFull"). *)
 From Coq Require Import List NArith Bool Arith Lia.
-From Snow Require Import Lib.Wire Model.Encap Model.EncapFail Proofs.EncapSweep Proofs.EncapProofs Proofs.EncapFailProofs.
+From Snow Require Import Lib.Wire Model.Encap Model.EncapFail Model.EncapPad Proofs.EncapSweep Proofs.EncapProofs Proofs.EncapFailProofs Proofs.EncapPadProofs.
 Import ListNotations.
 Open Scope N_scope.
 
@@ -81,6 +81,45 @@ Theorem C09_padding_exact : forall n, length (write_padding n) = N.to_nat n.
 Proof. exact padding_exact. Qed.
 Theorem C09_padding_invisible : forall n sc, read_stream (write_padding n) sc = ([], EOF).
 Proof. exact padding_invisible. Qed.
+
+(* The same for WritePadding over ANY padding buffer (Model/EncapPad.v: the package variable paddingBuffer as a
+   parameter - its length is the batch size of the loop, its bytes are the fill): as long as a batch is at most 8194
+   bytes, padding of size n occupies exactly n bytes and is invisible anywhere in a stream, to every reader, whatever
+   the fill bytes and however far n exceeds the batch size.  [write_padding] is the instance (1024, zeros). *)
+Theorem C09_padding_any_buffer_exact : forall buf n, 1 <= blen buf -> blen buf <= PADBATCH_MAX ->
+  length (write_padding_buf buf n) = N.to_nat n.
+Proof. exact padding_buf_exact. Qed.
+Theorem C09_padding_any_buffer_invisible : forall buf n rest sc, 1 <= blen buf -> blen buf <= PADBATCH_MAX ->
+  read_stream (write_padding_buf buf n ++ rest) sc = read_stream rest sc.
+Proof. exact padding_buf_invisible. Qed.
+Theorem C09_padding_model_is_instance : forall n, write_padding n = write_padding_buf (zeros PADBUF) n.
+Proof. exact write_padding_is_buf. Qed.
+Example C09_padding_any_buffer_example :
+  let buf := loud_fill 1024 in
+  1 <= blen buf /\ blen buf <= PADBATCH_MAX /\
+  read_stream ([129; 7] ++ write_padding_buf buf 100000 ++ [129; 9]) [(3%nat, false); (0%nat, false)] = ([[7]; [9]], EOF).
+Proof. cbv zeta. split; [vm_compute; discriminate|]. split; [vm_compute; discriminate|]. vm_compute. reflexivity. Qed.
+
+(* WritePadding's switch has a third case (three-byte prefix) whose middle byte is masked with 0x3f, not 0x7f.  With the
+   pinned batch size (1024), indeed with any batch up to 8193 bytes, no turn of the loop reaches it: every padding
+   chunk has a one- or two-byte prefix. *)
+Theorem C09_padding_three_byte_case_unreachable : forall p, 1 <= p -> p <= PADBUF ->
+  (1 <= length (fst (pad_prefix p)) <= 2)%nat.
+Proof. exact pad_prefix_short_pinned. Qed.
+Theorem C09_padding_three_byte_case_unreachable_below_8194 : forall p, 1 <= p -> p <= 8193 ->
+  (1 <= length (fst (pad_prefix p)) <= 2)%nat.
+Proof. exact pad_prefix_short. Qed.
+(* The bound 8194 is sharp: with a 16384-byte buffer one WritePadding(8195) still writes exactly 8195 bytes, but its
+   prefix announces 0 of the 8192 bytes that follow, and a reader finds 4096 data chunks in a loud fill and loses
+   the chunk after the padding; an all-zero fill hides the slip (left-over zeros are empty padding chunks). *)
+Theorem C09_padding_large_batch_refuted :
+  let buf := loud_fill 16384 in
+  blen buf = 16384 /\ length (write_padding_buf buf 8195) = N.to_nat 8195 /\
+  N.of_nat (length (fst (read_stream (write_padding_buf buf 8195) []))) = 4096 /\
+  read_stream ([129; 7] ++ write_padding_buf buf 8195 ++ [129; 9]) [] <> ([[7]; [9]], EOF).
+Proof. exact padding_large_batch_refuted. Qed.
+Example C09_padding_large_batch_zero_fill : read_stream (write_padding_buf (zeros 16384) 8195) [] = ([], EOF).
+Proof. exact padding_large_batch_zero_fill. Qed.
 
 (* A chunk sized by the size-budget helper never exceeds its budget. *)
 Theorem C09_budget : forall n d, 0 < n -> blen d = max_data_for_size n ->
